@@ -23,24 +23,24 @@ def W_sources(cxx):
 TARGETS = {
     # engine W, rapidcheck driver
     "w_rc": dict(cxx="clang++", std="c++17", flags=SAN, srcs=lambda: W_sources("clang++") + [dict(src="world/w_main.cpp")], libs="-lrapidcheck"),
-    "w_rc_gcc": dict(cxx="g++", std="c++17", flags=SAN, srcs=lambda: W_sources("g++") + [dict(src="world/w_main.cpp")], libs="-lrapidcheck"),
+    "w_rc_gcc": dict(cxx="g++", std="c++20", flags=SAN, srcs=lambda: W_sources("g++") + [dict(src="world/w_main.cpp")], libs="-lrapidcheck"),
     "w_fuzz": dict(cxx="clang++", std="c++17", flags="-fsanitize=fuzzer-no-link,address,undefined -fno-sanitize-recover=undefined",
                    srcs=lambda: W_sources("clang++") + [dict(src="world/w_fuzz.cpp")], libs="", link_flags="-fsanitize=fuzzer,address,undefined"),
     # single-TU rapidcheck engines
     "s_rc": dict(cxx="clang++", std="c++17", flags=SAN, srcs=[dict(src="printing/s_main.cpp")], libs="-lrapidcheck"),
-    "s_rc_gcc": dict(cxx="g++", std="c++17", flags=SAN, srcs=[dict(src="printing/s_main.cpp")], libs="-lrapidcheck"),
+    "s_rc_gcc": dict(cxx="g++", std="c++23", flags=SAN, srcs=[dict(src="printing/s_main.cpp")], libs="-lrapidcheck"),
     "m_rc": dict(cxx="clang++", std="c++17", flags=SAN, srcs=[dict(src="matchers/m_main.cpp")], libs="-lrapidcheck"),
-    "m_rc_gcc": dict(cxx="g++", std="c++17", flags=SAN, srcs=[dict(src="matchers/m_main.cpp")], libs="-lrapidcheck"),
+    "m_rc_gcc": dict(cxx="g++", std="c++20", flags=SAN, srcs=[dict(src="matchers/m_main.cpp")], libs="-lrapidcheck"),
     "r_rc": dict(cxx="clang++", std="c++17", flags=SAN, srcs=[dict(src="ranges/r_main.cpp")], libs="-lrapidcheck"),
-    "r_rc_gcc": dict(cxx="g++", std="c++17", flags=SAN, srcs=[dict(src="ranges/r_main.cpp")], libs="-lrapidcheck"),
+    "r_rc_gcc": dict(cxx="g++", std="c++20", flags=SAN, srcs=[dict(src="ranges/r_main.cpp")], libs="-lrapidcheck"),
     "c8_rc": dict(cxx="clang++", std="c++17", flags=SAN, srcs=[dict(src="clauses/c8_main.cpp")], libs="-lrapidcheck"),
-    "c8_rc_gcc": dict(cxx="g++", std="c++17", flags=SAN, srcs=[dict(src="clauses/c8_main.cpp")], libs="-lrapidcheck"),
+    "c8_rc_gcc": dict(cxx="g++", std="c++20", flags=SAN, srcs=[dict(src="clauses/c8_main.cpp")], libs="-lrapidcheck"),
     # engine Q: the single source is compiled in 8 parts (its own -DQ_PARTS / -DQ_PART split of the site table) and linked
     "q_rc": dict(cxx="clang++", std="c++20", flags=SAN, srcs=[dict(src="coro/q_main.cpp", defs="-DQ_PARTS=8 -DQ_PART=%d" % k, tag="part%d" % k) for k in range(8)], libs="-lrapidcheck"),
     "q_rc_gcc": dict(cxx="g++", std="c++20", flags=SAN, srcs=[dict(src="coro/q_main.cpp", defs="-DQ_PARTS=8 -DQ_PART=%d" % k, tag="part%d" % k) for k in range(8)], libs="-lrapidcheck"),
     # engine T (threads): same source, ThreadSanitizer build (mode A) and ASan build (modes B, E)
     "t_tsan": dict(cxx="clang++", std="c++17", flags="-fsanitize=thread", srcs=[dict(src="threads/t_main.cpp")], libs="-lrapidcheck"),
-    "t_tsan_gcc": dict(cxx="g++", std="c++17", flags="-fsanitize=thread", srcs=[dict(src="threads/t_main.cpp")], libs="-lrapidcheck"),
+    "t_tsan_gcc": dict(cxx="g++", std="c++20", flags="-fsanitize=thread", srcs=[dict(src="threads/t_main.cpp")], libs="-lrapidcheck"),
     "t_asan": dict(cxx="clang++", std="c++17", flags=SAN, srcs=[dict(src="threads/t_main.cpp")], libs="-lrapidcheck"),
 }
 
